@@ -8,6 +8,9 @@ Require Import GM.model.AstHeap GM.model.AstSpec.
 Require Import GM.model.Reader GM.model.ReaderI.
 Require Import GM.model.Prio GM.model.Bufio GM.model.Ids GM.model.HtmlWriter GM.model.Html GM.model.HtmlI GM.model.HtmlSpec GM.model.TableX GM.model.FootnoteX GM.model.Blocks GM.model.Refs GM.model.SliceHeap GM.model.SpecDoc GM.model.BlocksI GM.model.DelimI GM.model.RegexI GM.model.BlockParse GM.model.ParseI GM.model.ParseChecked GM.model.Attr GM.model.AttrI GM.model.HeadingIds.
 Require Import GM.model.InlineParseX GM.model.GfmParse GM.model.GfmI GM.model.GfmChecked GM.model.GfmSpec.
+Require Import GM.model.HeadingOpts GM.model.HeadingOptsI.
+Require Import GM.model.FootnoteParse GM.model.FootnoteI.
+Require Import GM.model.TypoDefParseT GM.model.TypoDefParseD GM.model.TypoDefParse GM.model.TypoDefI.
 Extraction Language OCaml.
 Extraction "model.ml"
   IsPunct IsSpace EscapeHTML URLEscape UnescapePunctuations ResolveNumericReferences ResolveEntityNames
@@ -31,4 +34,7 @@ Extraction "model.ml"
   md_of html_of
   ListItemOpen ThematicBreakOpen AtxOpenR FenceOpenR FenceContinueR ScanDelimiter CodeSpanParse CodeBlockOpen CodeBlockContinue CodeBlockClose
   RegexFind ParseBlocksTree ParseTree ConvertModel ConvertModelC ParseLinesOk ParseAttributesR ConvertModelA
-  ParseTreeX ConvertModelX ParseTreeGfm ConvertModelGfm ConvertModelXC ConvertModelGfmC GfmTablesOk.
+  ParseTreeX ConvertModelX ParseTreeGfm ConvertModelGfm ConvertModelXC ConvertModelGfmC GfmTablesOk
+  ParseTreeH ConvertModelH
+  ParseTreeFn ConvertModelFn
+  ParseTreeTD ConvertModelTD TDRuneRanges.
